@@ -5,6 +5,7 @@ the source-text tie (DESIGN §2.5).  `False` is not a timebase value of the mode
 constructed with `dt=False` is outside the quantifier of C05.
 -/
 import CtrlVerif.Model.Dt
+import CtrlVerif.Model.DtOps
 
 namespace CtrlVerif.PyDt
 
@@ -38,3 +39,31 @@ def eqZero (d : Dt) : Bool := decide (num d = 0) && !isNone d
 def isclose (a b : Dt) : Bool := close (num a) (num b)
 
 end CtrlVerif.PyDt
+
+namespace CtrlVerif.PyDtArg
+
+/-! primitives for the translation of `_process_dt_keyword` (values of a `dt=` argument) -/
+
+/-- `dt is None` -/
+def isNone : DtArg → Bool
+  | .none => true
+  | _ => false
+
+/-- `isinstance(dt, (bool, int, float))` -/
+def isNumber : DtArg → Bool
+  | .btrue => true
+  | .num _ => true
+  | _ => false
+
+/-- `dt < 0` for a bool / int / float (`True < 0` is false). -/
+def ltZero : DtArg → Bool
+  | .num q => decide (q < 0)
+  | _ => false
+
+/-- `d.pop('dt')` when the key is present (KeyError otherwise: never reached, the generated code
+tests membership first; mapped to `badArg`). -/
+def pop : Option DtArg → Except Err DtArg
+  | some v => .ok v
+  | Option.none => .error .badArg
+
+end CtrlVerif.PyDtArg
